@@ -360,7 +360,8 @@ def batch_size (P : Params) (d : OpDesc) : R := do
       match fullShape4 s with
       | b :: _ => .ok (b == 1)
       | [] => exc
-  return (← chk (ifm d)) && (← chk (ifm2 d))
+  -- repair C01-21: the OFM is checked as well (`for tens in (op.ifm, op.ifm2, op.ofm)`)
+  return (← chk (ifm d)) && (← chk (ifm2 d)) && (← chk (ofm d))
 
 def faf (P : Params) (d : OpDesc) : R :=
   match d.act with
